@@ -310,6 +310,8 @@ class GenState(object):
                 return None
             t = rng.choice(ts)
             i = rng.randrange(len(g.nodes[t].params))
+            if rng.random() < 0.25:
+                i -= len(g.nodes[t].params)  # negative index, counted from the end
             if rng.random() < 0.3:
                 return ["setitem", t, i, ["lit", _val(rng)]]
             return ["setitem", t, i, ["node", rng.choice(sc)]]
@@ -488,7 +490,7 @@ class GenState(object):
             return True
         if k == "setitem":
             t, i, item = op[1], op[2], op[3]
-            if not g.has(t) or g.nodes[t].kind not in SEQ_KINDS or not (0 <= i < len(g.nodes[t].params)):
+            if not g.has(t) or g.nodes[t].kind not in SEQ_KINDS or not (-len(g.nodes[t].params) <= i < len(g.nodes[t].params)):
                 return False
             if item[0] == "node":
                 if not g.has(item[1]) or g.nodes[item[1]].typ != "s" or g.reaches(item[1], t):
